@@ -73,7 +73,7 @@ def parallel_map(mod, cases, workers=None, chunksize=None):
         return [_worker(i) for i in items]
     ctx = mp.get_context("fork")
     if chunksize is None:
-        chunksize = max(1, min(64, len(items) // (workers * 8) or 1))
+        chunksize = getattr(mod, "CHUNK", None) or max(1, min(16, len(items) // (workers * 32) or 1))
     with ctx.Pool(workers) as pool:
         return pool.map(_worker, items, chunksize=chunksize)
 
